@@ -2,12 +2,13 @@
 (* The concrete instance of the algebra: bytes are integers 0..255 and the *)
 (* permutation is the real one of AsconPerm.tla.  A root module EXTENDS    *)
 (* this and binds, in its .cfg:                                            *)
-(*   PermOp <- CPermOp  BX <- CBX  BC <- CBC  BBit <- CBBit  BBase <- CBBase *)
+(*   PermOp <- CPermOp  BX <- CBX  BC <- CBC  BBit <- CBBit  BBase <- CBBase  BHas <- CBHas *)
 EXTENDS AsconPerm
 
-CPermOp(S, first) == [base |-> <<>>, d |-> Permute(S.d, first)]
+CPermOp(S, first) == [base |-> <<>>, d |-> Permute(S.d, first), z |-> {}]
 CBX(a, b)   == a ^^ b
 CBC(x)      == x
 CBBit(b, j) == IF (b \div (2 ^ j)) % 2 = 1 THEN 128 ELSE 0
 CBBase(base, i) == 0       \* never reached: every concrete state has base = <<>>
+CBHas(b, base, i) == FALSE
 =========================================================================
